@@ -376,8 +376,51 @@ class SearchDetectOp(Op):
         return cases
 
 
+class RedirectOp(Op):
+    """Survey._redirect_is_search_itext's outcome for one select (in-line items from which copy / rejected / not search) against Model/Redirect.v"""
+    name = "S.redirect"
+    imports = ["PX.Model.Redirect"]
+    fn = ("fun p : (option (list N) * list N * bool * list (list N)) => let '(ap, its, copy, lists) := p in match redirect ap its copy lists with "
+          "RNotSearch => [78%N] | RErrFile => [70%N] | RErrNoList => [76%N] | RInline false => [73;48]%N | RInline true => [73;49]%N end")
+    in_ty = "(option (list N) * list N * bool * list (list N))"
+    n_quick, n_thorough = 300, 3000
+
+    def generate(self, rng, n):
+        import types
+        from pyxform.survey import Survey
+        from pyxform.errors import PyXFormError
+        aps = [None, "", "minimal", "search('f')", "quick search('f', 'matches', 'c', 'v')", "search(", "search()", "research('x')", "search (x)", "likert"]
+        sets = ["l", "l2", "cities.csv", "a.xml", "b.geojson", "${q}", "x.txt", "opts.1", ".csv", "l.CSV"]
+        cases = []
+        for _ in range(n):
+            ap = rng.choice(aps)
+            its = rng.choice(sets)
+            copy = rng.random() < 0.4
+            lists = [x for x in ["l", "l2", "opts.1", "${q}", "cities.csv"] if rng.random() < 0.4]
+            mk = lambda nm: types.SimpleNamespace(used_by_search=rng.random() < 0.3, options=[], name=nm)
+            survey = types.SimpleNamespace(choices=({x: mk(x) for x in lists} if (lists or rng.random() < 0.5) else None))
+            control = {"appearance": ap} if ap is not None else rng.choice([{}, None])
+            el = types.SimpleNamespace(control=control, itemset=its, name="q", choices=mk(its) if copy else None)
+            try:
+                r = Survey._redirect_is_search_itext(survey, el)
+                if not r:
+                    exp = "N"
+                else:
+                    adopted = (not copy) and el.choices is not None and el.choices is survey.choices.get(its)
+                    exp = "I1" if adopted else "I0"
+                    if not el.choices.used_by_search:
+                        exp = "unmarked"
+            except PyXFormError as ex:
+                exp = "F" if "select from file" in str(ex) else ("L" if "does not reference a choice list" in str(ex) else "other:" + str(ex)[:40])
+            except Exception as ex:   # an outcome the model does not have
+                exp = "crash:" + type(ex).__name__
+            cases.append({"coq": f"({'None' if ap is None else '(Some ' + cstr(ap) + ')'}, {cstr(its)}, {cbool(copy)}, {clist([cstr(x) for x in lists], '(list N)')})",
+                          "expected": exp, "desc": {"appearance": ap, "itemset": its, "copy": copy, "lists": lists}, "class": exp, "nontrivial": exp != "N"})
+        return cases
+
+
 def ops(tier):
-    return [SplitextOp(), StaticInstanceOp(), RegistryOp(), ItemsetOp(), CsvOp(), CsvParseOp(), SearchDetectOp()]
+    return [SplitextOp(), StaticInstanceOp(), RegistryOp(), ItemsetOp(), CsvOp(), CsvParseOp(), SearchDetectOp(), RedirectOp()]
 
 
 # ---- direct oracle ---------------------------------------------------------------------------------------------
